@@ -156,6 +156,7 @@ impl Manager {
         #[cfg(feature = "graceful-shutdown")]
         {
             self.connections.fetch_add(1, Ordering::Release);
+            verif_point!("shutdown:added", 0);
             debug!(
                 "Current connections: {}",
                 self.connections.load(Ordering::Acquire)
@@ -170,6 +171,7 @@ impl Manager {
         {
             // - 1 at the end because fetch returns the old value.
             let connections = self.connections.fetch_sub(1, Ordering::AcqRel) - 1;
+            verif_point!("remove:after-sub", connections.max(0));
             if connections < 0 {
                 warn!(
                     "Connection count is less than 0. \
@@ -178,6 +180,7 @@ impl Manager {
                 );
             }
             if connections <= 0 {
+                verif_point!("remove:before-flag", 0);
                 let shutdown = self.shutdown.load(Ordering::Acquire);
                 if shutdown {
                     debug!("There are no connections. Shutting down.");
@@ -270,6 +273,7 @@ impl Manager {
             self.handover_socket_path
         );
         self.shutdown.store(true, Ordering::Release);
+        verif_point!("shutdown:after-store", 0);
         self.inititate_channel
             .0
             .send(())
@@ -280,10 +284,12 @@ impl Manager {
             std::fs::remove_file(path).ok();
         }
 
+        verif_point!("shutdown:before-count", 0);
         if self.connections.load(Ordering::Acquire) <= 0 {
             #[allow(clippy::used_underscore_items)] // cfg
             self._shutdown();
         }
+        verif_point!("shutdown:before-notify", 0);
         debug!(
             "Current connections: {}",
             self.connections.load(Ordering::Acquire)
@@ -299,6 +305,7 @@ impl Manager {
         if self.shutting_down.swap(true, Ordering::AcqRel) {
             return;
         }
+        verif_point!("_shutdown:spawn-completion", 0);
         let channel = self.finished_channel.0.clone();
         let pre_channel = self.pre_shutdown_channel.0.clone();
         let count = Arc::clone(&self.pre_shutdown_count);
@@ -548,7 +555,9 @@ impl AcceptFuture<'_> {
                 if self.manager.shutdown.load(Ordering::Acquire) {
                     return Poll::Ready(());
                 }
+                verif_point!("accept:loaded-false", 0);
                 self.manager.set_waker(self.index, Waker::clone(cx.waker()));
+                verif_point!("accept:waker-set", 0);
                 // the shutdown (and its notification of the wakers) can have happened between
                 // the check above and the registration of our waker
                 if self.manager.shutdown.load(Ordering::Acquire) {
